@@ -170,6 +170,54 @@ def handle (req : Json) : Except String Json := do
       (match rows with | r :: _ => notBraced (denseRowLine q alsoF r.1 r.2) | [] => true)
     let want := ArffResult.dense (attrs.map (·.name.2)) (rows.map fun r => ⟨rowOut encs r.2, r.2.any (·.2.isMissing)⟩)
     pure (obj [("lines", linesJ ls), ("hyp", Json.bool hyp), ("want", arffJ want), ("model", exJ arffJ (arffReadN ls))])
+  | "sparsetable" =>
+    -- spec side of a whole sparse file: header + @data + rows → lines, hypotheses of arff_sparse_table_roundtrip, expected and model result
+    let q ← nat (← field req "q")
+    let also ← natList (← field req "also")
+    let dkw ← natList (← field req "dkw")
+    let attrs ← (← arr (← field req "attrs")).mapM (fun a => do
+      let kw ← natList (← field a "kw"); let sep ← nat (← field a "sep"); let name ← parseTok (← field a "name")
+      let gap ← natList (← field a "gap"); let typ ← parseTypeW (← field a "typ")
+      pure (⟨kw, sep, name, gap, typ⟩ : AttrW))
+    let rows ← (← arr (← field req "rows")).mapM (fun r => do
+      let pad ← nat (← field r "pad")
+      let cells ← (← arr (← field r "cells")).mapM (fun c => do
+        let d ← natList (← field c "d")
+        let k ← str (← field c "k")
+        let t ← natList (fieldD c "t" (Json.arr #[]))
+        let cw : CellW := match k with | "missing" => .missing | "num" => .num t | "str" => .str t | _ => .cat t
+        pure (d, cw))
+      pure (pad, cells))
+    let alsoF := fun c => also.contains c
+    let encs := attrs.map (·.typ.enc false)
+    let names := attrs.map (·.name.2)
+    let ls := attrs.map (·.line q alsoF) ++ dkw :: rows.map (fun r => sparseRowLine r.1 r.2)
+    let hyp := (q == SQ || q == DQ) && !attrs.isEmpty && attrs.all (·.ok false) && names.Nodup &&
+      lowerAscii dkw == kwData && !rows.isEmpty && rows.all (fun r => sparseRowWOk attrs.length encs r.2)
+    let want := ArffResult.sparse names (rows.map fun r => ⟨sparseRowOut names encs r.2, r.2.any (·.2.isMissing)⟩)
+    let flags := rows.map (fun r => Json.arr #[Json.bool (sparseMissing (sparseRowLine r.1 r.2)), Json.bool (r.2.any (·.2.isMissing))])
+    pure (obj [("lines", linesJ ls), ("hyp", Json.bool hyp), ("want", arffJ want), ("model", exJ arffJ (arffReadN ls)),
+               ("flags", Json.arr flags.toArray)])
+  | "numlit" =>
+    -- `int(tok)` / `float(tok)` as CPython reads them (underscores, sign, white space, inf/nan) and the older ASCII approximations
+    let t ← natList (← field req "tok")
+    pure (obj [("int", ofOpt ofInt (parseIntPy t)), ("float", Json.bool (isFloatLitPy t)),
+               ("int0", ofOpt ofInt (parseInt t)), ("float0", Json.bool (isFloatLit t))])
+  | "plainline" =>
+    -- an unquoted dense row: the csv fast path and the fallback parser (reader already switched by `first`) on the same line
+    let vs ← texts (← field req "values")
+    let pad ← nat (← field req "pad")
+    let first ← natList (← field req "first")
+    let line := plainRowLine pad vs
+    let n := vs.length
+    let fast := match arffLineStepF n ALRF.init line with | .ok r => Except.ok r.2 | .error e => .error e
+    let slow := match arffLineStepF n ALRF.init first with
+      | .error e => Except.error e
+      | .ok (s, _) => match arffLineStepF n s line with | .ok r => .ok (r.2, s.advanced) | .error e => .error e
+    let adv := match arffLineStepF n ALRF.init first with | .ok (s, _) => s.advanced | .error _ => false
+    let slowR := match slow with | .ok (r, _) => Except.ok r | .error e => .error e
+    pure (obj [("line", textJ line), ("hyp", Json.bool (vs.all plainTok && !vs.isEmpty)), ("fast", exJ linesJ fast),
+               ("slow", exJ linesJ slowR), ("advanced", Json.bool adv), ("loop", exJ linesJ (advLoop none (splitOn COMMA line)))])
   | "chunkskip" =>
     -- a stream with an n-byte header the decompressor swallows (empty outputs for the first chunks)
     let cs ← texts (← field req "chunks")
